@@ -397,6 +397,45 @@ func instrumentFile(label string, p *packages.Package, f *ast.File, fc *fileCtx)
 		return roots
 	}
 
+	// R3b: local variables captured by a closure that is started with `go` are shared between
+	// goroutines the library starts itself: their accesses are logged too (keyed by address,
+	// since every call of the enclosing function has its own instance).
+	sharedLocal := map[*types.Var]int{}
+	ast.Inspect(f, func(n ast.Node) bool {
+		g, ok := n.(*ast.GoStmt)
+		if !ok {
+			return true
+		}
+		fl, ok := g.Call.Fun.(*ast.FuncLit)
+		if !ok {
+			return true
+		}
+		ast.Inspect(fl.Body, func(m ast.Node) bool {
+			id, ok := m.(*ast.Ident)
+			if !ok {
+				return true
+			}
+			v, ok := info.Uses[id].(*types.Var)
+			if !ok || v.IsField() || v.Pkg() == nil || v.Parent() == nil || v.Parent() == v.Pkg().Scope() {
+				return true
+			}
+			if _, isGlobal := varIDs[v]; isGlobal {
+				return true
+			}
+			if v.Pos() >= fl.Pos() && v.Pos() < fl.End() {
+				return true // declared inside the closure: goroutine-private
+			}
+			if _, seen := sharedLocal[v]; !seen {
+				lid := len(inv.Vars)
+				pos := p.Fset.Position(v.Pos())
+				inv.Vars = append(inv.Vars, VarInfo{ID: lid, Name: p.PkgPath + ":local:" + v.Name(), Type: v.Type().String(), File: label + "/" + fc.rel, Line: pos.Line})
+				sharedLocal[v] = lid
+			}
+			return true
+		})
+		return true
+	})
+
 	var visit func(n ast.Node) bool
 	visit = func(n ast.Node) bool {
 		if n == nil {
@@ -451,12 +490,19 @@ func instrumentFile(label string, p *packages.Package, f *ast.File, fc *fileCtx)
 				break
 			}
 			id, ok := varIDs[v]
+			isLocal := false
 			if !ok {
-				break
+				if id, ok = sharedLocal[v]; !ok {
+					break
+				}
+				isLocal = true
 			}
 			host := hostStmt()
 			if host == nil {
 				break // package-level initialiser or expression position without a host
+			}
+			if isLocal && !(v.Pos() < host.Pos()) {
+				break // declared inside the host statement: no place to take its address before it
 			}
 			kind := 0
 			if writeRoots(innermostStmt(stack))[x] {
@@ -483,11 +529,69 @@ func instrumentFile(label string, p *packages.Package, f *ast.File, fc *fileCtx)
 			if ls, ok := host.(*ast.LabeledStmt); ok {
 				at = ls.Pos()
 			}
-			fc.insert(at, fmt.Sprintf("__simrt.Access(%d, %d, %d); ", sid, id, hk), 1)
+			if isLocal {
+				keyExpr := "&" + x.Name
+				if kind == 1 {
+					// v[i] = ... on a slice or array: the element, not the variable, is written
+					// (per-slot results filled by several goroutines are the standard correct idiom)
+					if el := elementWriteTarget(info, innermostStmt(stack), x, fc); el != "" {
+						fc.insert(at, fmt.Sprintf("__simrt.AccessL(%d, %d, %d, &%s); ", sid, id, hk&^1, x.Name), 1)
+						keyExpr = "&" + el
+					}
+				}
+				fc.insert(at, fmt.Sprintf("__simrt.AccessL(%d, %d, %d, %s); ", sid, id, hk, keyExpr), 1)
+			} else {
+				fc.insert(at, fmt.Sprintf("__simrt.Access(%d, %d, %d); ", sid, id, hk), 1)
+			}
 		}
 		return true
 	}
 	ast.Inspect(f, visit)
+}
+
+// elementWriteTarget: if stmt assigns to (or increments) X[i]... where X is the identifier id
+// and X is a slice, an array or a pointer to an array, it returns the source text of the
+// indexed element ("X[i]"); otherwise "".
+func elementWriteTarget(info *types.Info, stmt ast.Stmt, id *ast.Ident, fc *fileCtx) string {
+	var lhs []ast.Expr
+	switch x := stmt.(type) {
+	case *ast.AssignStmt:
+		lhs = x.Lhs
+	case *ast.IncDecStmt:
+		lhs = []ast.Expr{x.X}
+	}
+	for _, l := range lhs {
+		e := l
+		var idx *ast.IndexExpr
+		for {
+			switch y := e.(type) {
+			case *ast.ParenExpr:
+				e = y.X
+				continue
+			case *ast.SelectorExpr:
+				e = y.X
+				continue
+			case *ast.IndexExpr:
+				idx = y
+				e = y.X
+				continue
+			}
+			break
+		}
+		if base, ok := e.(*ast.Ident); ok && base == id && idx != nil {
+			if bid, ok := idx.X.(*ast.Ident); ok && bid == id {
+				switch t := info.TypeOf(idx.X).Underlying().(type) {
+				case *types.Slice, *types.Array:
+					return fc.text(idx)
+				case *types.Pointer:
+					if _, isArr := t.Elem().Underlying().(*types.Array); isArr {
+						return fc.text(idx)
+					}
+				}
+			}
+		}
+	}
+	return ""
 }
 
 // innermostStmt returns the innermost statement on the stack (listed or not): the
